@@ -24,6 +24,7 @@ func Parse(input string) (messages []*ast.DataMessage, errors, warnings []string
 		errors:     []parseError{},
 		warnings:   []parseError{},
 	}
+	defer verifDone(p.lexer)
 
 	for p.peek().typ != tokenTypeEOF {
 		if ok := p.parseMessage(); !ok {
@@ -69,6 +70,7 @@ func (pe *parseError) string() string {
 
 // peek returns the next token.
 func (p *parser) peek() token {
+	verifPeek(p.lexer)
 	if len(p.tokenQueue) == 0 {
 		var t token
 		for {
